@@ -263,7 +263,6 @@ Qed.
 
 Definition sgood (objs : store) (s : sstate) : Prop :=
   NoDup (all_of s)
-  /\ NoDup (map fst (s_patches s))
   /\ (forall n, In n (all_of s) -> pm_get (s_patches s) n <> None)
   /\ (forall n o, pm_get (s_patches s) n = Some o -> exists p, parents_of objs o = [p]).
 
@@ -275,12 +274,26 @@ Proof.
   - intros n o Hn. destruct (Hpc n o Hn) as [_ Hp]. exact Hp.
 Qed.
 
+Lemma inv_patches_nodup : forall w so s,
+  Inv w -> state_of (w_objs w) so = Some s -> NoDup (map fst (s_patches s)).
+Proof. intros w so s (_ & Hwf & _) Hs. now destruct (Hwf so s Hs) as (_ & Hk & _). Qed.
+
+(* the recorded state (if any) is good: all that opening a stack needs *)
+Definition cur_good (w : world) : Prop :=
+  forall s, cur_state w = Some s -> sgood (w_objs w) s.
+
+Lemma cur_good_of_inv : forall w, Inv w -> cur_good w.
+Proof.
+  intros w Hinv s Hs. unfold cur_state in Hs. destruct (w_stack w) as [so|]; [|discriminate].
+  eapply sgood_of_inv; eassumption.
+Qed.
+
 Lemma sgood_empty : forall objs h, sgood objs (empty_state h).
 Proof. intros objs h. repeat split; cbn; try constructor; try tauto. discriminate. Qed.
 
 Lemma sgood_ext : forall a b s, store_extends a b -> sgood a s -> sgood b s.
 Proof.
-  intros a b s He (H1 & H2 & H3 & H4). repeat split; try assumption.
+  intros a b s He (H1 & H3 & H4). repeat split; try assumption.
   intros n o Hn. destruct (H4 n o Hn) as [p Hp]. exists p. now apply (parents_of_ext a b).
 Qed.
 
@@ -288,7 +301,7 @@ Lemma sgood_applied_nodup : forall objs s, sgood objs s -> NoDup (s_applied s).
 Proof. intros objs s (H & _). unfold all_of in H. now apply nodup_app in H as [? _]. Qed.
 
 Lemma sgood_applied_has : forall objs s n, sgood objs s -> In n (s_applied s) -> pm_get (s_patches s) n <> None.
-Proof. intros objs s n (_ & _ & H & _) Hn. apply H. unfold all_of. apply in_or_app. now left. Qed.
+Proof. intros objs s n (_ & H & _) Hn. apply H. unfold all_of. apply in_or_app. now left. Qed.
 
 (* ---------------------------------------------------------------- opened stacks *)
 
@@ -349,8 +362,8 @@ Proof.
   right. right. injection H as <-. cbn. repeat split; auto.
 Qed.
 
-Lemma open_stack_ok : forall p w op,
-  open_stack p w = Some op -> Inv w -> CInv w ->
+Lemma open_stack_ok_gen : forall p w op,
+  open_stack p w = Some op -> cur_good w -> CInv w ->
   opened_ok op /\ store_extends (w_objs w) (w_objs (op_world op))
   /\ w_branch (op_world op) = w_branch w.
 Proof.
@@ -360,7 +373,7 @@ Proof.
   - rewrite Hw. cbn. split; [|split; [apply store_extends_refl|reflexivity]].
     constructor; rewrite Hw, ?Hst; cbn.
     + exact Hc.
-    + eapply sgood_of_inv; eassumption.
+    + apply Hinv. unfold cur_state. now rewrite Hso.
     + eapply Hc; eassumption.
     + exact Hb.
   - rewrite Hw. cbn. pose proof (state_commit_extends _ _ _ _ _ Hsc) as He.
@@ -380,6 +393,12 @@ Proof.
     + reflexivity.
 Qed.
 
+Lemma open_stack_ok : forall p w op,
+  open_stack p w = Some op -> Inv w -> CInv w ->
+  opened_ok op /\ store_extends (w_objs w) (w_objs (op_world op))
+  /\ w_branch (op_world op) = w_branch w.
+Proof. intros p w op H Hinv Hc. apply (open_stack_ok_gen p w op H); [now apply cur_good_of_inv|exact Hc]. Qed.
+
 Definition K0 (op : opened) (o : topts) : kctx :=
   mkK (w_objs (op_world op)) (op_state op) (op_base op) None (o_set_head o).
 
@@ -392,7 +411,7 @@ Proof.
   - apply ns_extends_refl.
   - cbn. eapply sgood_applied_nodup; exact Hg.
   - intros n Hn. rewrite Hpat. eapply sgood_applied_has; [exact Hg|exact Hn].
-  - intros n o' Hn. rewrite Hpat in Hn. destruct Hg as (_ & _ & _ & Hs). cbn. eauto.
+  - intros n o' Hn. rewrite Hpat in Hn. destruct Hg as (_ & _ & Hs). cbn. eauto.
   - change (t_objs (begin_txn op o)) with (w_objs (op_world op)).
     change (t_base_oid (begin_txn op o)) with (op_base op).
     change (toids (begin_txn op o)) with (applied_oids (op_state op)).
@@ -437,4 +456,26 @@ Proof.
   intros op o f msg P Hok Hf. apply transact_cinv; [exact Hok|].
   destruct (begin_txn_inv op o Hok) as [H0 Hh0].
   apply (rinvP_final (K0 op o) P). now apply Hf.
+Qed.
+
+(* ---------------------------------------------------------------- a successful execute *)
+
+Lemma execute_ok_state : forall w t msg w2,
+  execute w (TOk t) msg = (w2, X0) ->
+  exists st1 prev th,
+    s_patches st1 = s_patches (t_stack t) /\ t_head_oid t = Some th
+    /\ cur_state w2 = Some (new_state t st1 prev th)
+    /\ store_extends (t_objs t) (w_objs w2)
+    /\ w_branch w2 = (if o_set_head (t_opts t) then th else w_branch w).
+Proof.
+  intros w t msg w2 H.
+  apply (execute_spec w (TOk t) msg t w2 X0 (or_introl eq_refl)) in H
+    as [[_ Ex]|[[_ [_ Ex]]|[w1 [st1 [Hl Hcases]]]]]; try discriminate.
+  apply logged_of_spec in Hl as (L1 & L2 & L3 & L4 & L5 & L6 & L7 & L8 & L9 & L10 & L11).
+  destruct Hcases as [[wt [um [_ [Hx|Hx]]]]|[[_ [Hx|Hx]]|Hfin]]; try discriminate.
+  destruct Hfin as (th & prev & objs' & so & prefs' & wt & um & Hth & Hprev & Hsc & -> & _).
+  exists st1, prev, th. repeat split; try assumption.
+  - unfold cur_state. cbn. now apply state_commit_spec in Hsc as [_ Hs].
+  - cbn. eapply store_extends_trans; [exact L9|]. eapply state_commit_extends; exact Hsc.
+  - cbn. now rewrite L1.
 Qed.
